@@ -211,10 +211,27 @@ class BatchLoader(LoaderBase):
     ) -> DaskArrayList:
         """Construct batch loading tasks."""
         _backend = backend or Backend()
-        return DaskArrayList.concat(
-            loader.construct_loading_tasks(output_shape=output_shape, backend=_backend)
-            for loader in self.loaders
-        )
+        # NOTE: molecules of different images may be interleaved (such as after
+        # sorting). The i-th task must always correspond to the i-th molecule.
+        mole = self.molecules
+        image_ids = mole.features[IMAGE_ID_LABEL]
+        tasks: list[da.Array | None] = [None] * mole.count()
+        for image_id in image_ids.unique(maintain_order=True):
+            indices = np.where((image_ids == image_id).to_numpy())[0]
+            loader = SubtomogramLoader(
+                self._images[image_id],
+                mole.subset(indices),
+                self.order,
+                self.scale,
+                self.output_shape,
+                self.corner_safe,
+            )
+            _tasks = loader.construct_loading_tasks(
+                output_shape=output_shape, backend=_backend
+            )
+            for i, task in zip(indices, _tasks):
+                tasks[i] = task
+        return DaskArrayList(tasks)  # type: ignore
 
 
 class LoaderAccessor:
